@@ -184,6 +184,7 @@ class Interp:
         attr_as_key=(),
         max_depth=MAX_DEPTH,
         keep_ext=(),
+        stubs=None,
     ):
         self.P = program
         self.opaque = set(opaque)  # internal qualnames that are not inlined
@@ -193,6 +194,7 @@ class Interp:
         self.attr_as_key = set(attr_as_key)
         self.max_depth = max_depth
         self.keep_ext = set(keep_ext)
+        self.stubs = dict(stubs or {})  # internal qualname -> callable(bound args) -> Val (replaces the call)
         self.decider = None
         self.events = []
         self.stack = []  # FunctionInfo being interpreted
@@ -231,9 +233,11 @@ class Interp:
                     todo.append([t[1] for t in tr[:i]] + [not tr[i][1]])
         return paths
 
-    def run_function(self, qualname, args=None, kwargs=None, self_val=None):
-        """Explore function `qualname` with symbolic parameters (or the given abstract values)."""
+    def run_function(self, qualname, args=None, kwargs=None, self_val=None, parent_args=None):
+        """Explore function `qualname` with symbolic parameters (or the given abstract values).
+        For a nested function, `parent_args` gives the enclosing function's parameter values."""
         fi = self.P.func(qualname)
+        self._parent_args = parent_args or {}
 
         def run(it):
             a = dict(args or {})
@@ -264,8 +268,10 @@ class Interp:
         env = Env(None, parent.module, parent)
         if parent.parent is not None:
             env.parent = self._closure_env_for(parent.parent)
+        pa = getattr(self, "_parent_args", {})
         for p in parent.params + parent.kwonly:
-            env.set(p, sym_num(p))
+            v = pa.get(p)
+            env.set(p, (v() if callable(v) else v) if v is not None else sym_num(p))
         self.stack.append(parent)
         try:
             try:
@@ -1172,6 +1178,8 @@ class Interp:
             bound = self.bind_internal(fi, args, kwargs, has_self, node)
             is_opaque = fi.qualname in self.opaque or (fi.cls is not None and fi.name in self.opaque_methods)
             self.log("int_call", node, callee=fi.qualname, args=bound, recv=self_val, inlined=not is_opaque)
+            if fi.qualname in self.stubs:
+                return self.stubs[fi.qualname](bound)
             if is_opaque:
                 names = [p for p in fi.params + fi.kwonly if p in bound]
                 parts = [self.to_nf(bound[p]) for p in names]
@@ -1533,6 +1541,9 @@ def _h_isinstance(it, args, kwargs, bound, node, qual):
 
 
 def _h_where(it, args, kwargs, bound, node, qual):
+    if len(args) == 3 and isinstance(args[0], BoolV):
+        # np.where(P, a, b) is the elementwise form of `a if P else b`: partition on P
+        return args[1] if it.decide(args[0], node) else args[2]
     if len(args) == 3:
         return Num(nf.fn("where", *[it.to_nf(a) for a in args]))
     return None
